@@ -31,7 +31,9 @@ TieFree(lat) ==
      LET L == Live(lat[c][k]) IN \A a, b \in 1..Len(L) : a # b => L[a].lp # L[b].lp
 Close(a, b, tol) == AbsV(a - b) <= tol
 \* tolerance of a run: absolute (fixed-point units) plus relative part rel / 100000 of the magnitude
-Tol(r, v) == r.tol + (AbsV(v) * r.rel) \div 100000
+\* (values at the saturation mark are minus infinity, e.g. a Newson-Krumm emission term that underflowed: no relative part,
+\* and the product would leave TLC's 32-bit range)
+Tol(r, v) == IF AbsV(v) >= 20000000 THEN r.tol ELSE r.tol + (AbsV(v) * r.rel) \div 100000
 
 \* A "primitive" group records the planar geometry primitives (point-segment and segment-segment distance, relative
 \* position) of one abstract configuration evaluated in several coordinate frames; values are mapped back to the
